@@ -275,6 +275,23 @@ def blockerHolds (base M : DB) (r : Rule) (target : Tuple) (β : Bindings) : Blo
     | some (.cmp x op y) => evalCmp x op y β == none
     | _ => false
 
+/-- does the relation have at least one rule? (`ProofContext::is_derived`) -/
+def hasRulesFor (p : Program) (rel : String) : Bool := p.any (fun r => r.head.rel == rel)
+
+def headVars (r : Rule) : List String := r.head.args.filterMap (fun | .var x => some x | _ => none)
+
+/-- every variable of every *positive* body atom occurs in the head: once the head is unified with the
+    target no positive atom has a choice to make. -/
+def Rule.noChoice (r : Rule) : Bool :=
+  r.body.all (fun | .pos a => a.args.all (fun | .var x => (headVars r).contains x | _ => true) | _ => true)
+
+/-- every body atom (positive or negated) is over a relation without rules; no unsupported literal. -/
+def Rule.baseOnly (p : Program) (r : Rule) : Bool :=
+  r.body.all (fun | .pos a => !hasRulesFor p a.rel | .neg a => !hasRulesFor p a.rel | .cmp _ _ _ => true | .other => false)
+
+/-- no head variable is spelled like the internal `_placeholder_<n>` names. -/
+def Rule.plainVars (r : Rule) : Bool := (headVars r).all (fun x => !isPlaceholderName x)
+
 /-- can clause `r` derive `target` in the world `(base, M)`? -/
 def clauseFires (base M : DB) (r : Rule) (target : Tuple) : Bool :=
   match unifyHead target r.head with
